@@ -231,7 +231,14 @@ def check_cli(ctx, plain, rng, scratch):
         (d / "m1.agp").write_text(agp)
         (d / "m2.tpf").write_text(tpf)
         order = [d / "m1.agp", d / "m2.tpf"] if rng.random() < 0.5 else [d / "m2.tpf", d / "m1.agp"]
-        r = cli_runs.run_asm_format([*order, "-f", "TPF"])
+        if rng.random() < 0.5:
+            # ... into one output file: it holds what all the inputs gave, in order
+            r = cli_runs.run_asm_format([*order, "-f", "TPF", "-o", d / "multi.out"])
+            outfile = d / "multi.out"
+            mode = "multi-outfile"
+            ctx.count("cli:multi-outfile")
+        else:
+            r = cli_runs.run_asm_format([*order, "-f", "TPF"])
         want = tpf + tpf
     else:
         (d / "a.agp").write_text(agp)
@@ -240,7 +247,7 @@ def check_cli(ctx, plain, rng, scratch):
     if r["exit_code"] != 0:
         ctx.violation(f"asm-format-failed:{mode}", f"exit {r['exit_code']} {r['exception']!r} {r['stderr'][-300:]}", case)
         return
-    if mode in ("out-override", "upper-ext"):
+    if mode in ("out-override", "upper-ext", "multi-outfile"):
         got = outfile.read_text() if outfile.exists() else "<no output file>"
         outfile.unlink(missing_ok=True)
     else:
@@ -292,6 +299,7 @@ def gates(c, tier):
         "cli:ok": 200,
         "cli:out-override": 20,
         "cli:upper-ext": 20,
+        "cli:multi-outfile": 20,
         "cli:with-qc-overlaps": 50,
         "cli:no-final-newline": 20,
         "corruption:no-final-newline:ref-valid:parsed": 300,
